@@ -14,8 +14,8 @@ from .corpus import Def, R, T, Var
 from .exec import Agg, Cell, EngineError, Exec, Panic, Ref, SrcSlice, U, Violation, as_bv, bvv, s_and, s_not, simp
 from .joint import canon
 
-OPS = ['next', 'bump1', 'clone_ahead', 'morph_roundtrip', 'morph_next_back', 'spanned_step', 'bump_rest', 'clone_from_other']
-OPS_STR = [0, 1, 2, 3, 4, 5, 7]
+OPS = ['next', 'bump1', 'clone_ahead', 'morph_roundtrip', 'morph_next_back', 'spanned_step', 'bump_rest', 'clone_from_other', 'spanned_resume']
+OPS_STR = [0, 1, 2, 3, 4, 5, 7, 8]
 OPS_BYTES = [0, 1, 6, 2, 7]
 
 HIST_EXTRA = '''
@@ -32,6 +32,7 @@ pub mod hist {
     pub fn extras_b(l: &Lexer<'static, B>) -> usize { l.extras }
     pub fn clone_from_a(dst: &mut Lexer<'static, A>, src: &Lexer<'static, A>) { dst.clone_from(src) }
     pub fn spanned_clone_from_a(dst: &mut SpannedIter<'static, A>, src: &SpannedIter<'static, A>) { dst.clone_from(src) }
+    pub fn spanned_bump_a(s: &mut SpannedIter<'static, A>, n: usize) { s.bump(n) }
     pub fn spanned_into_a(s: SpannedIter<'static, A>) -> Lexer<'static, A> { let l: &Lexer<'static, A> = &s; l.clone() }
     pub type C = super::hist_c::Tok;
     pub fn clone_from_c(dst: &mut Lexer<'static, C>, src: &Lexer<'static, C>) { dst.clone_from(src) }
@@ -217,6 +218,34 @@ def task_history(pl):
                     if cx != exp:
                         fail(f'spanned() yields {cx}, manual iteration {exp}')
                 trace.append(cy)
+            elif name == 'spanned_resume':
+                # one SpannedIter kept across two calls with an in-range bump through DerefMut in between (after a None of a
+                # partial lexer the iterator must go on exactly like the lexer it wraps)
+                c = ex.call_root(A + 'h_clone', [lref])
+                sp = Cell(ex.call_root(H + 'spanned_a', [c]))
+                for rnd_ in (0, 1):
+                    x = ex.call_root(H + 'spanned_next_a', [Ref(sp, ())])
+                    y = ex.call_root(A + 'h_next', [lref])
+                    s, e = span_of(lex)
+                    cx, cy = canon(x), canon(y)
+                    if cy[1] == 0:
+                        if cx[1] != 0:
+                            fail(f'spanned() yields {cx} where manual iteration ends (call {rnd_ + 1})')
+                    else:
+                        exp = ('agg', 1, (('agg', None, (cy[2][0], ('agg', None, (s, e)))),))
+                        if cx != exp:
+                            fail(f'spanned() yields {cx}, manual iteration {exp} (call {rnd_ + 1} on one iterator)')
+                    trace.append(cy)
+                    if rnd_ == 0:
+                        st = lexer_state(ex, lex)
+                        e0 = st['token_end']
+                        if not isinstance(e0, int):
+                            raise EngineError('symbolic token_end in history')
+                        okb = lexcheck.is_boundary_term(ex, e0 + 1)
+                        inr = simp(z3.ULE(bvv(e0 + 1, U), ex.len))
+                        if ex.decide([s_and(inr, okb), s_not(s_and(inr, okb))]) == 0:
+                            ex.call_root(H + 'spanned_bump_a', [Ref(sp, ()), 1])
+                            ex.call_root(A + 'h_bump', [lref, 1])
             check_accessors(lex, f'op {i} ({name})')
             ext = ex.call_root(H + 'extras_' + SFX, [Ref(lex, ())])
             if ext != 41:
